@@ -101,6 +101,9 @@ package diam
 //@   # ASSUMED for groups: follows from DecodeGrouped's (assumed) list-level clause; storing the group into a.Data would
 //@   # need a frame rule for heap-reading predicates over callee-allocated trees
 //@   ensures [C03 assumed] inspectable_group: err == nil && typeis(a.Data, *GroupedAVP) ==> dprintable(a.Data)
+//@   # discharged, one level deep: the members of a decoded group are decoded AVPs themselves
+//@   ensures [C03] group_members_were_decoded: err == nil && typeis(a.Data, *GroupedAVP) ==> a.Data.(*GroupedAVP) != nil &&
+//@           (forall i int :: 0 <= i && i < len(a.Data.(*GroupedAVP).AVP) ==> a.Data.(*GroupedAVP).AVP[i] != nil && a.Data.(*GroupedAVP).AVP[i].Data != nil && printable(a.Data.(*GroupedAVP).AVP[i].Data))
 //@   ensures [C04] cursor: err == nil && !typeis(a.Data, *GroupedAVP) ==> avplen(a) == pad4s(a.Length)
 //@   ensures [C01 C04] payload: err == nil && !typeis(a.Data, *GroupedAVP) ==> forall i int :: 0 <= i && i < a.Length - hdrlen(a.Flags) ==> dbyte(a.Data, i) == data[hdrlen(a.Flags) + i]
 //@   ensures [C06] private: err == nil ==> !viewsInto(a.Data, data) && !holdsview(a, data)
@@ -125,6 +128,9 @@ package diam
 //@   # ASSUMED for groups: follows from DecodeGrouped's (assumed) list-level clause; storing the group into a.Data would
 //@   # need a frame rule for heap-reading predicates over callee-allocated trees
 //@   ensures [C03 assumed] inspectable_group: err == nil && typeis(a.Data, *GroupedAVP) ==> dprintable(a.Data)
+//@   # discharged, one level deep: the members of a decoded group are decoded AVPs themselves
+//@   ensures [C03] group_members_were_decoded: err == nil && typeis(a.Data, *GroupedAVP) ==> a.Data.(*GroupedAVP) != nil &&
+//@           (forall i int :: 0 <= i && i < len(a.Data.(*GroupedAVP).AVP) ==> a.Data.(*GroupedAVP).AVP[i] != nil && a.Data.(*GroupedAVP).AVP[i].Data != nil && printable(a.Data.(*GroupedAVP).AVP[i].Data))
 //@   ensures [C04] cursor: err == nil && !typeis(a.Data, *GroupedAVP) ==> avplen(a) == pad4s(a.Length)
 //@   ensures [C01 C04] payload: err == nil && !typeis(a.Data, *GroupedAVP) ==> forall i int :: 0 <= i && i < a.Length - hdrlen(a.Flags) ==> dbyte(a.Data, i) == data[hdrlen(a.Flags) + i]
 //@   ensures [C06] private: err == nil ==> !viewsInto(a.Data, data) && !holdsview(a, data)
@@ -144,7 +150,12 @@ package diam
 //@   # member is inspectable; that the list of them is (dtree) is the induction over the loop, whose step needs a frame
 //@   # rule for append on a growing list of callee-allocated subtrees that the generator does not have
 //@   ensures [C03 assumed] inspectable: err == nil ==> dtree(g.AVP)
+//@   # discharged, one level deep (the assumed clause above is the same statement at every depth): every member is the
+//@   # result of a successful DecodeAVP - non-nil, with data, printable -, and a failed member means no group at all
+//@   ensures [C03] every_member_was_decoded: err == nil ==> forall i int :: 0 <= i && i < len(g.AVP) ==> g.AVP[i] != nil && fresh(g.AVP[i]) && g.AVP[i].Data != nil && printable(g.AVP[i].Data)
+//@   ensures [C03] no_group_from_a_failed_member: err != nil ==> g == nil
 //@   loop 0
+//@     invariant [C03] members_so_far_decoded: forall i int :: 0 <= i && i < len(g.AVP) ==> g.AVP[i] != nil && fresh(g.AVP[i]) && g.AVP[i].Data != nil && printable(g.AVP[i].Data)
 //@     invariant [C04] at_boundary: 0 <= n && n & 3 == 0 && boundary(b, n) && n <= pad4s(len(b))
 //@     invariant [C04] count: len(g.AVP) == framecount(b, n)
 //@     invariant g_fresh: g != nil && fresh(g) && sameslice(b, data)
@@ -171,9 +182,12 @@ package diam
 //@   ensures [C04] framing: err == nil ==> len(m.AVP) == len(old(m.AVP)) + framecount(b, pad4s(len(b)))
 //@   # ASSUMED (induction over the loop, see DecodeGrouped): a list of inspectable AVPs is an inspectable tree
 //@   ensures [C03 assumed] inspectable: err == nil && len(old(m.AVP)) == 0 ==> dtree(m.AVP)
+//@   # discharged, one level deep: every AVP appended is the result of a successful DecodeAVP
+//@   ensures [C03] every_avp_was_decoded: err == nil ==> forall i int :: len(old(m.AVP)) <= i && i < len(m.AVP) ==> m.AVP[i] != nil && m.AVP[i].Data != nil && printable(m.AVP[i].Data)
 //@   loop 0
 //@     invariant [C04] at_boundary: 0 <= n && n & 3 == 0 && boundary(b, n) && n <= pad4s(len(b))
 //@     invariant [C04] count: len(m.AVP) == len(old(m.AVP)) + framecount(b, n)
+//@     invariant [C03] appended_so_far_decoded: forall i int :: len(old(m.AVP)) <= i && i < len(m.AVP) ==> m.AVP[i] != nil && fresh(m.AVP[i]) && m.AVP[i].Data != nil && printable(m.AVP[i].Data)
 //@   end
 //@   atcall DecodeAVP: [C01] resolved_in_the_message_application: ARG1 == m.Header.ApplicationID && ARG2 == (m.dictionary != nil ? m.dictionary : dict.Default)
 //@ end
